@@ -15,7 +15,7 @@ def rand_tag_value(rng, dt):
     if dt == 'i':
         return str(rng.choice([0, 1, -1, 7, 42, 255, 256, -128, 65536, 2 ** 31, -2 ** 31 - 1, 10 ** 12]))
     if dt == 'f':
-        return rng.choice(['1.5', '-0.25', '3.0', '1e-05', '2.5e+20', '0.1', '100.0', '-7.75'])
+        return rng.choice(['1.5', '-0.25', '3.0', '1e-05', '2.5e+20', '0.1', '100.0', '-7.75', '1e+16', '-1e-07', '12345.678'])
     if dt == 'Z':
         return rng.choice(['hello', 'a b c', 'x:y:z', '*', '123', ' lead', 'trail ', '!~', 'co:Z:q'])
     if dt == 'A':
@@ -27,7 +27,9 @@ def rand_tag_value(rng, dt):
         return rng.choice(['00', 'FF', '1A2B3C', '0123456789ABCDEF'])
     if dt == 'B':
         return rng.choice(['C,1,2,3', 'c,-1,5', 'S,300,2', 's,-300,2', 'I,70000', 'i,-70000,1', 'f,1.5,2.0', 'C,255',
-                           'c,-128,127', 'S,65535', 'i,2147483647', 'I,4294967295', 'f,0.1'])
+                           'c,-128,127', 'S,65535', 'i,2147483647', 'I,4294967295', 'f,0.1',
+                           # values on the boundaries between the integer subtypes
+                           's,-1,128', 'i,-5,32768', 's,-32768,32767', 'S,256', 'I,65536', 'i,-2147483648,0', 'C,0', 'f,1e+16,-2.5e-07'])
     raise ValueError(dt)
 
 
